@@ -26,6 +26,10 @@ class NeedAtom(Exception):
     pass
 
 
+class Infeasible(Exception):
+    """The chosen valuation reaches an `unreachable` terminator: it is not a value of the type."""
+
+
 class Sym:
     """A captured value (or a part of it) whose integer value is chosen by the enumeration."""
 
@@ -47,6 +51,8 @@ class Mini:
         self.atoms = {}               # Sym path -> int (chosen by the enumeration)
         self.needed = []
         self.call_hook = None         # fn(callee_name, [arg values]) -> value, or raises Unknown
+        self.depth = 0
+        self.is_closure = True
         self.calls_seen = []
 
     def val(self, v):
@@ -71,10 +77,10 @@ class Mini:
                 continue
             else:
                 raise Unknown("projection %s" % (e,))
-        if l == 1 and fields and fields[0].startswith("upvar:"):
+        if l == 1 and self.is_closure and fields and fields[0].startswith("upvar:"):
             v = Sym((fields[0][6:],))
             fields = fields[1:]
-        elif l == 2 and l not in self.loc:
+        elif l == 2 and self.is_closure and l not in self.loc:
             v = self.element
             if fields and isinstance(v, dict):
                 self.read_fields.add(fields[0])
@@ -204,6 +210,18 @@ class Mini:
                     else:
                         raise Unknown("call to %s" % nm)
                     bb = t["t"]
+                elif self._local_pure(t) is not None:
+                    # a crate-local helper of the comparator (`bound.admits(x)`): evaluated in place
+                    cb = self._local_pure(t)
+                    sub = Mini(self.facts, cb, self.element, self.upvars, self.key_fields)
+                    sub.atoms, sub.needed, sub.read_fields = self.atoms, self.needed, self.read_fields
+                    sub.depth = self.depth + 1
+                    sub.is_closure = False
+                    for ai, a in enumerate(t["args"]):
+                        sub.loc[ai + 1] = self.operand(a)
+                    self.calls_seen.append(nm)
+                    self.loc[t["dest"]["l"]] = sub.run()
+                    bb = t["t"]
                 elif self.call_hook is not None:
                     args = [self.operand(a) for a in t["args"]]
                     self.calls_seen.append(nm)
@@ -211,9 +229,21 @@ class Mini:
                     bb = t["t"]
                 else:
                     raise Unknown("call to %s" % nm)
+            elif k == "unreachable":
+                raise Infeasible()
             else:
                 raise Unknown("terminator %s" % k)
         raise Unknown("too many steps")
+
+    def _local_pure(self, t):
+        if self.depth >= 3 or t.get("virtual") or t.get("t") is None:
+            return None
+        cb = self.facts.body(t.get("res") or "")
+        if cb is None or cb.kind not in ("Fn", "AssocFn") or cb.coroutine or len(t["args"]) != cb.argc:
+            return None
+        if cfg_of(cb).loops():
+            return None
+        return cb
 
 
 def closure_of_arg(facts, body, op):
@@ -308,6 +338,8 @@ def check_predicate(facts, cb, elem_kind):
                 if na.args[0] not in atoms:
                     atoms.append(na.args[0])
                     progressed = True
+            except Infeasible:
+                pass
             except Unknown as u:
                 return False, "not provably monotone: %s" % u, 0
         if not progressed:
@@ -315,13 +347,18 @@ def check_predicate(facts, cb, elem_kind):
     if len(atoms) > 3:
         return False, "the closure depends on %d captured values; too many to enumerate" % len(atoms), 0
     evals = 0
+    feasible = 0
     for vals in itertools.product(D, repeat=len(atoms)):
         outcome = {}
+        infeasible = False
         for i, el in enumerate(elems):
             m = Mini(facts, cb, el, {}, key_fields)
             m.atoms = dict(zip(atoms, vals))
             try:
                 r = m.run()
+            except Infeasible:
+                infeasible = True
+                break
             except NeedAtom as na:
                 return False, "not provably monotone: captured value %s discovered late" % (na.args[0],), evals
             except Unknown as u:
@@ -330,11 +367,16 @@ def check_predicate(facts, cb, elem_kind):
                 return False, "the closure reads element field(s) %s that are not part of the sort key" % sorted(m.read_fields - key_fields), evals
             outcome[i] = r
             evals += 1
+        if infeasible:
+            continue
+        feasible += 1
         for s in seqs:
             seq = [outcome[i] for i in s]
             if not monotone(seq):
                 return False, "outcome sequence %s for elements %s with captured values %s is not monotone" % (
                     [fmt(x) for x in seq], [elems[i] for i in s], dict(zip([".".join(a) for a in atoms], vals))), evals
+    if not feasible:
+        return False, "no valuation of the captured values is feasible in the model domain", evals
     return True, "", evals
 
 
